@@ -12,7 +12,7 @@ import (
 // which Process must reject.
 func corpus() []rescorr.Case {
 	mk := func(label string, files ...string) rescorr.Case {
-		c := rescorr.Case{Extra: map[string]string{"seed": "1", "max_pairs": "4000", "label": label}}
+		c := rescorr.Case{Extra: map[string]string{"seed": "1", "max_pairs": "4000", "label": label, "kept": "1"}}
 		for i := 0; i+1 < len(files); i += 2 {
 			c.Names = append(c.Names, files[i])
 			c.Texts = append(c.Texts, files[i+1])
